@@ -13,7 +13,9 @@ Trace == ndJsonDeserialize(IOEnv.VH_TRACE)
 VARIABLES l
 vars == <<l>>
 
-Sfx(e) == IF e.sep THEN ".sep" ELSE ""
+\* named deviations (known findings): a differing string contains a separator character of the flattened encoding (.sep);
+\* the two nodes differ only in their hashes and the unseparated "key:value" entries read the same text (.adjacent)
+Sfx(e) == IF e.sep THEN ".sep" ELSE IF "adj" \in DOMAIN e /\ e.adj THEN ".adjacent" ELSE ""
 
 JudgeEq(e, kind, cw(_), cs(_)) ==
      (IF e.eqaa /\ e.eqbb THEN {} ELSE {"eq." \o kind \o ".reflexive"})
